@@ -196,6 +196,8 @@ class Engine(object):
                                                              'want': o.ent, 'refined': self.refine_class})
                 return cand
         self.report('read', 'phantom_object', {'where': where, 'obj': repr(pobj), 'pk': list(pk)})
+        # also an identity matter: the session handed out an object under a key that no object of the program has
+        self.report('identity', 'object_under_unknown_pk', {'where': where, 'obj': repr(pobj), 'pk': list(pk)})
         return None
 
     def _is_seed(self, pobj):
